@@ -71,7 +71,11 @@ AudioOfN(n) == {[kind |-> "audio", ts |-> 500, durs |-> DurPat("const", n, 1), s
 \* while the reference track loses samples (its chunks then move although none of its tables changes)
 AudioLongLast(n) == {[kind |-> "audio", ts |-> 500, durs |-> [i \in 1 .. n |-> IF i = n THEN 40 ELSE 5], sizes |-> [i \in 1 .. n |-> 2], ctos |-> <<>>,
                       sync |-> {0}, spc |-> ch, sdtp |-> FALSE] : ch \in {<<n>>, Rep(1, n)}}
-AudioTracks == AudioOfN(3) \cup AudioOfN(7) \cup AudioLongLast(2)
+\* a timescale in which the end time of the reference track is NOT a whole number of ticks (44.1 kHz / 100): samples that start
+\* between floor and exact value of the converted end time start before the end time
+AudioOdd(n) == {[kind |-> "audio", ts |-> 441, durs |-> [i \in 1 .. n |-> 4], sizes |-> [i \in 1 .. n |-> 2], ctos |-> <<>>,
+                 sync |-> {0}, spc |-> ch, sdtp |-> FALSE] : ch \in {<<n>>, Rep(1, n)}}
+AudioTracks == AudioOfN(3) \cup AudioOfN(7) \cup AudioLongLast(2) \cup AudioOdd(9)
 Files == {<<v>> : v \in VideoTracks} \cup (IF WithAudio THEN {<<v, a>> : v \in VideoTracks, a \in AudioTracks} \cup {<<a>> : a \in AudioTracks} ELSE {})
 TotalMs(tr) == (Total(tr.durs) * 1000) \div tr.ts
 \* requested durations: every sample start of the reference track in ms, +-1 ms, and 1 ms / beyond the end
@@ -105,13 +109,15 @@ TablesOK == (Mode = "tables" /\ phase = "done") =>
 Ref == file[1]
 ReqT == (d * Ref.ts) \div 1000
 E == EndTime(Ref, ReqT)
-ET(tr) == (E * tr.ts) \div Ref.ts
+\* "starts before the end time" across timescales is an exact comparison of rationals: dts / ts < E / Ref.ts
+StartsBefore(tr, s) == Dts(tr.durs, s) * Ref.ts < E * tr.ts
+KeptOf(tr) == Cardinality({s \in 1 .. Len(tr.durs) : StartsBefore(tr, s)})
 \* the tool is defined (may succeed) when an end time exists and it lies inside every track
-Defined == E > 0 /\ \A i \in 1 .. Len(file) : ET(file[i]) < Total(file[i].durs) /\ ET(file[i]) > 0
+Defined == E > 0 /\ \A i \in 1 .. Len(file) : E * file[i].ts < Total(file[i].durs) * Ref.ts /\ KeptOf(file[i]) > 0
 Export == (DoExport /\ Mode = "files" /\ phase = "done") =>
     PrintT(ToJson([tracks |-> [i \in 1 .. Len(file) |-> [kind |-> file[i].kind, ts |-> file[i].ts, durs |-> file[i].durs, sizes |-> file[i].sizes,
                                                          ctos |-> file[i].ctos, hasstss |-> file[i].sync # {0},
                                                          sync |-> [s \in 1 .. Len(file[i].durs) |-> IsSync(file[i], s)], spc |-> file[i].spc]],
                    d |-> d, defined |-> Defined, endtime |-> E,
-                   kept |-> IF Defined THEN [i \in 1 .. Len(file) |-> Kept(file[i], ET(file[i]))] ELSE <<>>]))
+                   kept |-> IF Defined THEN [i \in 1 .. Len(file) |-> KeptOf(file[i])] ELSE <<>>]))
 =============================================================================
